@@ -144,7 +144,9 @@ fn stdout_matches(want: &[u8], g: &[u8]) -> bool {
             }
             i += 1;
         } else {
-            if j >= g.len() || g[j] != want[i] {
+            // NUL bytes (record space never written) count as blanks on both sides
+            let w = if want[i] == 0 { b' ' } else { want[i] };
+            if j >= g.len() || g[j] != w {
                 return false;
             }
             i += 1;
